@@ -80,6 +80,7 @@ ImplSame(o, T) ==
 Sig == LET T == TreeOf(Obs[case]) IN
        [endsep |-> LastLeafIsSep(T), treebranch |-> TreeThenBranch(T), inrep |-> TreeInRep(T),
         sepclass |-> ClassListsSep(T), treelastalt |-> TreeLastInAltBranch(T), branchinrep |-> BranchInUnboundedRep(T),
+        repbranch |-> RepThenBranch(T), exh |-> Obs[case].q.exh,
         skipadj |-> (T # <<>> /\ Adjacent(ExpandZ(T), "B") /\ ~Adjacent(Expand(T, {1}), "B")),
         (* the reported value is what the transcription of the pinned algorithm computes *)
         implsame |-> ImplSame(Obs[case], T)]
